@@ -156,10 +156,6 @@ def c20(tier):
         hist("heap-dbg", "heap", variant="dbg", events=500_000 if q else 10_000_000, k=6, shards=2, seed_offset=31),
         hist("list-dbg-sweep", "list", mode="sweep", variant="dbg", events=2_000_000_000, k=4, shards=1, extra=["--max-depth", "5" if q else "6"], timeout=3000),
         hist("heap-dbg-sweep", "heap", mode="sweep", variant="dbg", events=2_000_000_000, k=5, shards=1, extra=["--max-depth", "7" if q else "9"], timeout=3000),
-        # structural riders on primitive histories
-        hist("timer-rand", "timer", events=300_000 if q else 5_000_000, k=5, shards=2),
-        hist("mutex-rand", "mutex", events=300_000 if q else 5_000_000, k=4, shards=1),
-        hist("mpmc-rand", "mpmc", events=300_000 if q else 5_000_000, k=3, shards=1),
     ]
 
 
